@@ -29,6 +29,9 @@ func (e *Exec) RunFunction(fn *ssa.Function) (err error) {
 	if c := e.contractOf(fn); c != nil && c.Options["exact"] {
 		e.Opt.Exact = true
 	}
+	if c := e.contractOf(fn); c != nil && c.Options["no-lambda"] {
+		e.Opt.NoLambda = true // bulk copies as pattern-guarded quantified axioms instead of lambda arrays
+	}
 	if c := e.contractOf(fn); c != nil && (c.Options["trace"] || c.Options["eval-once"] || c.Options["forward-exits"] || c.Options["forward-body-exits"] || len(c.AtEvals) > 0) {
 		InstallTrace(e, &TraceHook{EvalOnce: c.Options["eval-once"], ForwardExits: c.Options["forward-exits"], ForwardBodyExits: c.Options["forward-body-exits"], ConsumesReturn: c.Options["consumes-return"], AtEvals: c.AtEvals})
 		e.ghostOn = true
@@ -40,6 +43,18 @@ func (e *Exec) RunFunction(fn *ssa.Function) (err error) {
 	fr := &Frame{fn: fn, vals: map[ssa.Value]Value{}, locals: map[*ssa.Alloc]string{}}
 	if e.Opt.Setup != nil {
 		e.Opt.Setup(e)
+	}
+	if c := e.contractOf(fn); c != nil && len(c.CountCalls)+len(c.CountStores) > 0 {
+		if e.InitHeap == nil {
+			e.InitHeap = map[string]*Term{}
+		}
+		for _, n := range c.CountCalls {
+			e.InitHeap["L$ncall_"+n] = IntLit(0)
+		}
+		for _, n := range c.CountStores {
+			e.InitHeap["L$nstore_"+n] = IntLit(0)
+		}
+		e.ghostOn = true
 	}
 	for k, v := range e.InitHeap {
 		st.heap[k] = v
@@ -635,6 +650,19 @@ func (e *Exec) loopInvariants(fr *Frame, h *ssa.BasicBlock, phis []*ssa.Phi, ini
 	}
 	// ghost trace candidates (family T)
 	if e.ghostOn {
+		var cks []string
+		for k, t := range pre.heap {
+			if (strings.HasPrefix(k, "L$ncall_") || strings.HasPrefix(k, "L$nstore_")) && t != nil && t.Sort == SInt {
+				cks = append(cks, k)
+			}
+		}
+		sort.Strings(cks)
+		for _, k := range cks {
+			k := k
+			add(k[1:]+"==pre", true, func(v map[*ssa.Phi]Value, st *State) *Term { return Eq(pre.heap[k], st.heap[k]) })
+		}
+	}
+	if e.ghostOn && pre.heap[gExit] != nil {
 		add("$no-exit", true, func(v map[*ssa.Phi]Value, st *State) *Term { return Not(st.heap[gExit]) })
 		add("$no-xexit", true, func(v map[*ssa.Phi]Value, st *State) *Term { return Not(st.heap[gXexit]) })
 		add("$exit==pre", true, func(v map[*ssa.Phi]Value, st *State) *Term { return Eq(pre.heap[gExit], st.heap[gExit]) })
